@@ -43,7 +43,9 @@ def r1(run):
     term = [a for (k, a) in kinds if k in ("complete", "error")]
     recv = [a for (k, a) in kinds if k == "recv"]
     other = [a for (k, a) in kinds if k == "other"]
-    run.exact("terminal appends (.complete / .error) in the worker", len(term), 2, w.sp)
+    run.floor("terminal appends (.complete / .error) in the worker", len(term), 2, w.sp)
+    run.floor(".complete appends in the worker", len([a for a in term if classify(a) == "complete"]), 1, w.sp)
+    run.floor(".error appends in the worker", len([a for a in term if classify(a) == "error"]), 1, w.sp)
     run.floor("recv appends in the worker", len(recv), 1, w.sp)
     run.ob(MOD + "::execute_command|worker|append-kinds", not other, w.sp, "the worker appends only recv / complete / error frames (%s)" % other, reason="unexpected-command-frame")
     tbbs = [a.call.bb for a in term]
@@ -81,10 +83,15 @@ def r1(run):
     for c in rc:
         ok_e, err_e = q.call_result_edges(w, c, ok=True), q.call_result_edges(w, c, ok=False)
         for a in term:
-            k = classify(a)
-            want = ok_e if k == "complete" else err_e
-            run.ob(MOD + "::execute_command|worker|%s-arm" % k, bool(want) and q.dominated(w, a.call.bb, via_edges=want), a.call.sp,
-                   ".%s is appended on the %s arm of running the closure" % (k, "success" if k == "complete" else "failure"), reason="wrong-terminal-event")
+            if classify(a) == "complete":
+                run.ob(MOD + "::execute_command|worker|complete-arm", bool(ok_e) and q.dominated(w, a.call.bb, via_edges=ok_e), a.call.sp,
+                       ".complete is appended on the success arm of running the closure only", reason="wrong-terminal-event")
+        # the failure arm ends in an .error of its own or in an Err return (the dispatcher's .error): never in .complete, never silently
+        err_aps = [a.call.bb for a in term if classify(a) == "error"]
+        reach_quiet = w.reachable_blocks([t for (_, t, _) in err_e], removed_blocks=err_aps) if err_e else set()
+        silent_ok = [w.blocks[bb]["term"]["sp"] for bb in sorted(set(oks)) if bb in reach_quiet]
+        run.ob(MOD + "::execute_command|worker|error-arm", bool(err_e) and not silent_ok, c.sp,
+               "on the failure arm of running the closure every Ok return lies behind an .error append (%s)" % silent_ok, reason="wrong-terminal-event")
         for a in recv:
             run.ob(MOD + "::execute_command|worker|recv-on-success-arm", bool(ok_e) and q.dominated(w, a.call.bb, via_edges=ok_e), a.call.sp, "recv frames only on the success arm")
     # the worker's own Err (and a panic of the blocking task) reaches execute_command's caller: `.await??`
